@@ -440,7 +440,7 @@ Definition process_block (s : nstate) (hid prev : Z) (hroot : mnode) (body : lis
    else it becomes unconfirmed (in memory) and
      - without stored state: a state without proof is created and delivered (HandleTx, depth 1);
      - with a stored state whose proof names a header still in the chain: "already confirmed", it is taken
-       out of the unconfirmed set again, nothing is delivered;
+       out of the unconfirmed set and out of the mempool again, nothing is delivered;
      - with any other stored state: that state is saved again and delivered as it is - a proof it carries
        (of a block reverted since) stays in it, and the unconfirmed depth stays 0 then.
    (Not modelled: an output fetch fault for such a transaction - excluded by c04_valid.) *)
@@ -456,17 +456,19 @@ Definition process_seen (s : nstate) (t : Z) (rel : bool) : nstate * Z * list ev
       | None => (upd (n_unconf s ++ [t]) (set_state t None (n_states s)), OK, [ETx 1 t None])
       | Some p =>
           if match p with Some cp => existsb (fun h => fst h =? fst (c_hdr cp)) (n_chain s) | None => false end
-          then (upd (n_unconf s) (n_states s), OK, [])
+          then (s, OK, [])
           else (upd (n_unconf s ++ [t]) (n_states s), OK,
                 [ETx 1 t (match p with Some cp => Some (cp, 0, is_valid cp t) | None => None end)])
       end.
 
 (* the Node is dropped and a new one loaded from storage.  graceful: headers and unconfirmed list are saved
-   first (shutdown); otherwise a hard crash.  The mempool is gone; insync: state of the new node. *)
+   first (shutdown); otherwise a hard crash.  The mempool is not stored: load puts the transactions of the
+   unconfirmed list whose stored state can be fetched back into it; insync: state of the new node. *)
 Definition process_restart (s : nstate) (graceful insync : bool) : nstate :=
   let chain := if graceful then n_chain s else n_saved_chain s in
   let unconf := if graceful then n_unconf s else n_saved_unconf s in
-  NS chain unconf [] insync chain unconf (n_txfiles s) (n_faults s) (n_states s).
+  let mempool := filter (fun t => is_Some (get_state t (n_states s))) unconf in
+  NS chain unconf mempool insync chain unconf (n_txfiles s) (n_faults s) (n_states s).
 
 Definition set_faults (s : nstate) (ts : list Z) : nstate :=
   NS (n_chain s) (n_unconf s) (n_mempool s) (n_insync s) (n_saved_chain s) (n_saved_unconf s) (n_txfiles s) ts
